@@ -40,6 +40,12 @@ def configs(tier, seed):
         cfgs.append(dict(move="pg", n=2, D=1, G=5, proposal=prop, wiring=wiring, outlier_prior=op, threshold=thr, N=3,
                          alpha=alphas[k % 3], data_seed=seed * 1000 + 77))
         k += 1
+    # call histories: warm caches under another concentration value, change it in place, then the update under test
+    for prop, wiring, op in itertools.product(["semi-adapted", "fully-adapted"], ["library", "run"], [0.0, 0.2]):
+        cfgs.append(dict(move="pg", n=2, D=1, G=5, proposal=prop, wiring=wiring, outlier_prior=op, threshold=0.5, N=2,
+                         alpha=alphas[k % 3], warm_alpha=alphas[(k + 1) % 3] * 3.0, warm_steps=4,
+                         data_seed=seed * 1000 + 55))
+        k += 1
     # n = 3, N = 2
     n3 = list(itertools.product(PROPOSALS, ["library", "run"], [0.0, 0.2]))
     if tier == "quick":
@@ -88,10 +94,10 @@ def run_exact(ctx, cfgs, label="exact"):
         resid, where, _all, row_def, unknown, pi = kernelx.flow_residual(pi_log, rows[ci])
         ctx.count("configurations")
         ctx.count("start_trees", forests_n[key])
-        ctx.see("%s|n%d|N%d|%s|%s|op%s|thr%s|a%s|D%dG%d" % (cfg["move"], cfg["n"], cfg.get("N", 0),
-                                                               cfg.get("proposal"), cfg.get("wiring"),
-                                                               cfg.get("outlier_prior"), cfg.get("threshold"),
-                                                               cfg["alpha"], cfg["D"], cfg["G"]))
+        ctx.see("%s|n%d|N%d|%s|%s|op%s|thr%s|a%s|D%dG%d|w%s" % (cfg["move"], cfg["n"], cfg.get("N", 0),
+                                                                  cfg.get("proposal"), cfg.get("wiring"),
+                                                                  cfg.get("outlier_prior"), cfg.get("threshold"),
+                                                                  cfg["alpha"], cfg["D"], cfg["G"], cfg.get("warm_alpha")))
         worst = max(worst, resid)
         ctx.maxi("worst_flow_residual_%s" % label, resid)
         ctx.maxi("worst_row_sum_defect", row_def)
@@ -103,9 +109,11 @@ def run_exact(ctx, cfgs, label="exact"):
                           {"cfg": cfg, "unknown": unknown[:5]})
         if not (resid <= TOL):
             ctx.violation(
-                "flow not conserved by the %s move: proposal=%s wiring=%s outliers=%s n=%d N=%s threshold=%s"
+                "flow not conserved by the %s move: proposal=%s wiring=%s outliers=%s n=%d N=%s threshold=%s%s"
                 % (cfg["move"], cfg.get("proposal"), cfg.get("wiring"), "on" if cfg.get("outlier_prior", 0) > 0 else "off",
-                   cfg["n"], cfg.get("N"), cfg.get("threshold")),
+                   cfg["n"], cfg.get("N"), cfg.get("threshold"),
+                   " after updates under another concentration value (in-place change, caches kept)"
+                   if cfg.get("warm_alpha") else ""),
                 {"cfg": cfg, "max_abs_piK_minus_pi": resid, "at_tree": where,
                  "pi": {k: pi[k] for k in list(pi)[:50]},
                  "replay": "vlib.kernelx.row_task over every start forest of cfg"})
@@ -173,8 +181,33 @@ def run_mc(ctx, cfg, total, shards=16):
         pv = min(1.0, 2 * min(lo, hi))
         if pv < worst_p:
             worst_p, worst = pv, (k, c, M * pk)
+    # the same test on shape classes (multiset of clade sizes, number of outliers): a defect that shifts mass between
+    # families of trees is far more visible in the class totals than in any single tree
+    def shape(k):
+        cl, outs = k[2:].split("]O[")
+        sizes = sorted(len(c.split(",")) for c in cl.split("|") if c)
+        return "%s/%d" % (sizes, len([x for x in outs.rstrip("]").split(",") if x]))
+
+    cls_p, cls_c = {}, {}
+    for k, v in pi_log.items():
+        cls_p[shape(k)] = cls_p.get(shape(k), 0.0) + math.exp(v - mx) / z
+    for k, c in counts.items():
+        if k in pi_log:
+            cls_c[shape(k)] = cls_c.get(shape(k), 0) + c
+    worst_cls = (1.0, None)
+    for sc, pk in cls_p.items():
+        c = cls_c.get(sc, 0)
+        pv = min(1.0, 2 * min(binom.cdf(c, M, min(pk, 1.0)), binom.sf(c - 1, M, min(pk, 1.0))))
+        if pv < worst_cls[0]:
+            worst_cls = (pv, (sc, c, M * pk))
+    if worst_cls[0] * len(cls_p) < 1e-8:
+        ctx.violation("Monte-Carlo (real numpy Generator): mass of a shape class after one %s update from pi differs "
+                      "from pi: proposal=%s wiring=%s" % (cfg["move"], cfg.get("proposal"), cfg.get("wiring")),
+                      {"cfg": cfg, "p_value": worst_cls[0], "class": worst_cls[1][0], "observed": worst_cls[1][1],
+                       "expected": worst_cls[1][2]})
     ctx.extra.setdefault("mc", []).append(
-        {"cfg": cfg, "transitions": M, "trees": ntrees, "smallest_p_value": worst_p, "at": worst})
+        {"cfg": cfg, "transitions": M, "trees": ntrees, "smallest_p_value": worst_p, "at": worst,
+         "shape_classes": len(cls_p), "smallest_class_p_value": worst_cls[0]})
     ctx.count("evaluations", M)
     ctx.see("mc|%s|%s|%s|n%d|N%d" % (cfg["move"], cfg.get("proposal"), cfg.get("wiring"), cfg["n"], cfg["N"]))
     if worst_p * ntrees < 1e-8:
@@ -305,11 +338,11 @@ def aux_configs(tier, seed):
     out = []
     for i, (wiring, op) in enumerate([("library", 0.0), ("run", 0.2)] if tier == "quick" else
                                      [("library", 0.0), ("run", 0.2), ("run", 0.0), ("library", 0.2)]):
-        for n in ([5] if tier == "quick" else [5, 6]):
+        for n in ([5, 6] if tier == "quick" else [5, 6, 7]):
             crafted = deep_wide if n == 5 else []
             out.append({"cfg": dict(move="pg", n=n, D=1, G=5, proposal=PROPOSALS[(i + seed) % 3], wiring=wiring,
                                     outlier_prior=op, threshold=0.5, N=2, alpha=1.0, data_seed=seed * 1000 + 300 + i),
-                        "trees": 24 if tier == "quick" else 60, "crafted": crafted})
+                        "trees": (24 if n == 5 else 12) if tier == "quick" else (60 if n < 7 else 25), "crafted": crafted})
     return out
 
 
@@ -324,6 +357,8 @@ def mc_configs(tier, seed):
                          threshold=0.5, N=5, alpha=1.0, data_seed=seed * 1000 + 6), 160000))
         out.append((dict(move="pg", n=3, D=2, G=7, proposal=prop, wiring=["library", "run"][i % 2], outlier_prior=0.2,
                          threshold=0.5, N=10, alpha=0.6, data_seed=seed * 1000 + 7), 160000))
+    out.append((dict(move="pg", n=5, D=1, G=7, proposal="fully-adapted", wiring="run", outlier_prior=0.0, threshold=0.5,
+                     N=4, alpha=1.5, kind="smooth", data_seed=seed * 1000 + 8), 96000))
     return out
 
 
